@@ -219,3 +219,184 @@ func VerifH_C17_QueryJSON() {
 	rt.Assert(rt.JSONEqual(data, data2), "the parsed query serialises to the same JSON")
 	rt.Cover(true, "round-trip-done")
 }
+
+// ---- query string syntax: meaning of well-formed input ----
+
+type verifClause struct {
+	pre   int // 0 optional, 1 required (+), 2 excluded (-)
+	kind  int
+	field string // "" = none
+	w1    string
+	w2    string
+	text  string
+}
+
+func verifWord(label string, n int) string {
+	s := rt.String(label, n)
+	for i := 0; i < n; i++ {
+		rt.Assume(rt.And(s[i] >= 'a', s[i] <= 'z'))
+	}
+	return s
+}
+
+const (
+	vqTerm = iota
+	vqPhrase
+	vqFuzzy
+	vqBoost
+	vqGT
+	vqGE
+	vqLT
+	vqLE
+	vqNumEq
+	vqKinds
+)
+
+func verifMakeClause() *verifClause {
+	c := &verifClause{pre: rt.Choice("prefix", 3), kind: rt.Choice("clause", vqKinds)}
+	if c.kind >= vqGT || rt.Choice("scoped", 2) == 1 {
+		c.field = verifWord("fieldname", 1)
+	}
+	c.w1 = verifWord("word", 2)
+	t := []string{"", "+", "-"}[c.pre]
+	if c.field != "" {
+		t += c.field + ":"
+	}
+	switch c.kind {
+	case vqTerm:
+		t += c.w1
+	case vqPhrase:
+		c.w2 = verifWord("word", 1)
+		t += "\"" + c.w1 + " " + c.w2 + "\""
+	case vqFuzzy:
+		t += c.w1 + "~2"
+	case vqBoost:
+		t += c.w1 + "^3"
+	case vqGT:
+		t += ">5"
+	case vqGE:
+		t += ">=5"
+	case vqLT:
+		t += "<5"
+	case vqLE:
+		t += "<=5"
+	case vqNumEq:
+		t += "-5"
+	}
+	c.text = t
+	return c
+}
+
+func verifNumIs(p *float64, v float64) bool { return p != nil && *p == v }
+func verifBoolIs(p *bool, v bool) bool      { return p != nil && *p == v }
+
+// verifClauseIs: q is the query the syntax documents for the clause.
+func verifClauseIs(c *verifClause, q Query) bool {
+	switch c.kind {
+	case vqTerm, vqFuzzy, vqBoost:
+		m, ok := q.(*MatchQuery)
+		if !ok {
+			return false
+		}
+		fz := 0
+		if c.kind == vqFuzzy {
+			fz = 2
+		}
+		okBoost := m.BoostVal == nil
+		if c.kind == vqBoost {
+			okBoost = m.BoostVal != nil && float64(*m.BoostVal) == 3
+		}
+		return rt.And(rt.EqString(m.Match, c.w1), rt.EqString(m.FieldVal, c.field), m.Fuzziness == fz, okBoost, m.Prefix == 0)
+	case vqPhrase:
+		m, ok := q.(*MatchPhraseQuery)
+		if !ok {
+			return false
+		}
+		return rt.And(rt.EqString(m.MatchPhrase, c.w1+" "+c.w2), rt.EqString(m.FieldVal, c.field), m.BoostVal == nil)
+	case vqGT, vqGE:
+		m, ok := q.(*NumericRangeQuery)
+		if !ok {
+			return false
+		}
+		return rt.And(verifNumIs(m.Min, 5), m.Max == nil, verifBoolIs(m.InclusiveMin, c.kind == vqGE), m.InclusiveMax == nil, rt.EqString(m.FieldVal, c.field))
+	case vqLT, vqLE:
+		m, ok := q.(*NumericRangeQuery)
+		if !ok {
+			return false
+		}
+		return rt.And(verifNumIs(m.Max, 5), m.Min == nil, verifBoolIs(m.InclusiveMax, c.kind == vqLE), m.InclusiveMin == nil, rt.EqString(m.FieldVal, c.field))
+	case vqNumEq:
+		d, ok := q.(*DisjunctionQuery)
+		if !ok || len(d.Disjuncts) != 2 {
+			return false
+		}
+		m, ok1 := d.Disjuncts[0].(*MatchQuery)
+		r, ok2 := d.Disjuncts[1].(*NumericRangeQuery)
+		if !ok1 || !ok2 {
+			return false
+		}
+		return rt.And(rt.EqString(m.Match, "-5"), rt.EqString(m.FieldVal, c.field), verifNumIs(r.Min, -5), verifNumIs(r.Max, -5),
+			verifBoolIs(r.InclusiveMin, true), verifBoolIs(r.InclusiveMax, true), rt.EqString(r.FieldVal, c.field))
+	}
+	return false
+}
+
+func verifSubQueries(q Query) []Query {
+	switch t := q.(type) {
+	case *ConjunctionQuery:
+		return t.Conjuncts
+	case *DisjunctionQuery:
+		return t.Disjuncts
+	}
+	return nil
+}
+
+// VerifH_C17_QueryStringMeaning: well-formed query strings of one or two clauses built from the
+// documented syntax (optional / +required / -excluded, field scoping, terms, phrases, fuzziness,
+// boost, numeric comparisons and equality) with symbolic words parse into exactly the boolean query
+// the syntax documents: each clause in the must / should / must-not list its prefix selects, in
+// order, with the documented type, field, text and options. With prior=1 another string (rejected
+// or accepted, from a list of awkward ones) is parsed first on the same pooled lexer
+// (bound pool_reuse=1): the meaning must not depend on what was parsed before.
+func VerifH_C17_QueryStringMeaning() {
+	if rt.Param("prior", 0) == 1 {
+		prior := []string{"\"ab", "a\\", "zz", "f:", "a^"}[rt.Choice("prior_input", 5)]
+		_, _ = parseQuerySyntax(prior)
+	}
+	n := rt.Choice("clauses", rt.Param("max_clauses", 2)) + 1
+	var cs []*verifClause
+	text := ""
+	for i := 0; i < n; i++ {
+		c := verifMakeClause()
+		if i > 0 {
+			text += " "
+		}
+		text += c.text
+		cs = append(cs, c)
+	}
+	q, err := parseQuerySyntax(text)
+	rt.Assert(err == nil, "well-formed query string is accepted")
+	if err != nil {
+		return
+	}
+	b, ok := q.(*BooleanQuery)
+	rt.Assert(ok, "a query string parses into a boolean query")
+	if !ok {
+		return
+	}
+	lists := [][]Query{verifSubQueries(b.Should), verifSubQueries(b.Must), verifSubQueries(b.MustNot)}
+	pos := []int{0, 0, 0}
+	for _, c := range cs {
+		l := lists[c.pre]
+		rt.Assert(pos[c.pre] < len(l), "each clause appears in the list its prefix selects (optional / required / excluded)")
+		if pos[c.pre] < len(l) {
+			rt.Assert(verifClauseIs(c, l[pos[c.pre]]), "each clause parses into the query the syntax documents (type, field, text, fuzziness, boost, bounds)")
+		}
+		pos[c.pre]++
+	}
+	for k := 0; k < 3; k++ {
+		rt.Assert(pos[k] == len(lists[k]), "no clause is invented or duplicated")
+	}
+	rt.Cover(rt.And(n == 2, cs[0].pre == 1, cs[n-1].pre == 2), "required-and-excluded")
+	rt.Cover(rt.And(cs[0].kind == vqPhrase, cs[0].field != ""), "scoped-phrase")
+}
